@@ -7,6 +7,7 @@ LEVEL = "Bounded symbolic model checking of the implementation: the real functio
 TRUST = "Trusted: the shims in /verif/symx (numpy/pandas/file-system/RNG/joblib contracts of DESIGN.md section 1.3, differentially validated against the real libraries on sampled paths at every run), z3, float = mathematical real, typeguard/numba made transparent."
 CHECKS = {
  "C01": ("section 2 C01", "N <= 4 (quick) / 5 (thorough) PSMs; score dtypes float/int; label dtypes bool/int/float; both directions; symbolic eval_fdr. " + TRUST),
+ "C02": ("section 2 C02", "the whole of brew() (ensemble off) on N <= 4 PSMs per file (quick) / 5 (thorough), folds 2..3, 1..2 files, spectrum keys of 1..2 columns, optional training cap with arbitrary RNG subsets, symbolic prediction/read chunk sizes, nondeterministic task order; estimator = recording model whose score per (fold model, row) is a fresh symbol (arbitrary-capacity learner). crc32 is an uninterpreted function assumed injective on the keys of a run; replay realises the hash order with real zlib.crc32 values. " + TRUST),
  "C10": ("section 2 C10", "K1 create_chunks_with_identifier/create_chunks with a feature list of symbolic length 1..60, 2..5 identifier columns, symbolic chunk size 2..64 (<= 10-12 chunks); K2 find_column family over casings/orders/duplicates; K3 convert_targets_column for labels in -3..3 and bool; K4 NaN scan with a symbolic NaN bit per cell; K5 read_percolator composed on a VFS table (text and Parquet suffix, <= 2 rows x <= 2 features quick, more in thorough; column/row scan chunk sizes symbolic). pandas.read_csv / pyarrow decoding trusted; replay goes through the real read_pin on real files. " + TRUST),
  "C11": ("section 2 C11", "dataset.calibrate_scores and OnDiskPsmDataset.calibrate_scores (targets read from a VFS file, encodings 1/-1, 1/0, bool) on N <= 4 (quick) / 5 (thorough) PSMs, symbolic scores/targets/eval_fdr; premise: >= 1 decoy and lowest accepted target strictly above the decoy median; real tdc for N <= 3, above that q-values constrained by the C01 formula. The per-fold application inside brew._predict is an obligation of the C02 harness. " + TRUST),
  "C12": ("section 2 C12", "Model.fit / predict with a recording estimator on N <= 3, 2 iterations (quick) / N <= 4, 3 iterations (thorough): arbitrary RNG permutation, shuffle symbolic, symbolic labels/features/train_fdr/estimator scores; tdc replaced by q-values constrained by the C01 formula (C01 discharges it). The pickle round trip is outside. " + TRUST),
